@@ -191,3 +191,52 @@ Fixpoint digits_fuel (fuel : nat) (n : N) (acc : str) : str :=
   | S f => if n <? 10 then (48 + n) :: acc else digits_fuel f (n / 10) ((48 + n mod 10) :: acc)
   end.
 Definition digits (n : N) : str := digits_fuel 40 n [].
+
+(* ---------- a consumer iterating all three levels, by content ---------- *)
+Fixpoint attrs_content (fuel : nat) (s : str) : list (str * str) :=
+  match fuel with
+  | O => []
+  | S f => match attr_next s with
+           | None => []
+           | Some (a, r) => (akey a, unquote_to_string (aval a)) :: attrs_content f r
+           end
+  end.
+(* None: an error item was yielded *)
+Fixpoint links_content (fuel : nat) (s : str) : option (list (str * list (str * str))) :=
+  match fuel with
+  | O => Some []
+  | S f => match link_next s with
+           | None => Some []
+           | Some (LErr, _) => None
+           | Some (LOk _ l _ a, r) =>
+             match links_content f r with
+             | Some rest => Some ((l, attrs_content (S (length a)) a) :: rest)
+             | None => None
+             end
+           end
+  end.
+Definition parse_content (s : str) := links_content (S (length s)) s.
+
+(* what the writer was given, as a reader should get it back *)
+Definition value_text (v : aval_w) : str :=
+  match v with AQuoted v => v | APlain v => v | AInt d => d end.
+Definition doc_content (d : list link_w) : list (str * list (str * str)) :=
+  map (fun l => (fst l, map (fun a => (fst a, value_text (snd a))) (snd l))) d.
+
+(* the documents C16 quantifies over: targets without '>', keys free of separators and of
+   leading/trailing white space, plain values all-alphanumeric (what attr() leaves unquoted),
+   integers as decimal digits *)
+Definition key_wf (k : str) : bool :=
+  forallb (fun c => negb ((c =? SEMI) || (c =? COMMA) || (c =? EQS) || (c =? QUOTE))) k
+  && match k with [] => true | c :: _ => negb (is_ws c) end
+  && match rev k with [] => true | c :: _ => negb (is_ws c) end.
+Definition is_digit (c : N) : bool := (48 <=? c) && (c <=? 57).
+Definition aval_wf (v : aval_w) : bool :=
+  match v with
+  | AQuoted _ => true
+  | APlain v => forallb is_alnum v
+  | AInt d => forallb is_digit d && negb (match d with [] => true | _ => false end)
+  end.
+Definition link_wf (l : link_w) : bool :=
+  forallb (fun c => negb (c =? GT)) (fst l) && forallb (fun a => key_wf (fst a) && aval_wf (snd a)) (snd l).
+Definition doc_wf (d : list link_w) : bool := forallb link_wf d.
